@@ -405,6 +405,28 @@ def rule_stop_chain(ctx):
     aw = [n for n in c.nodes if n.kind == "await" and isinstance(n.ast, ast.Await) and unparse(n.ast.value) == "self._coordination_task"]
     ok, w = must_call(ctx, fi, lambda n: n in aw, subjects=("self._coordination_task",))
     ctx.ob(R, fi, fi.node, ok, f"close() does not wait for the coordination routine to finish its last commit (path: {w})", text="await-coordination-task")
+    # tasks that the coordination routine (re)starts may only be stopped once that routine has ended
+    clo = _awaited_closure(ctx, [f"{GC}._coordination_routine"])
+    for starter, stopper in ((f"{GC}._start_heartbeat_task", f"{GC}._stop_heartbeat_task"), (f"{GC}.start_commit_offsets_refresh_task", f"{GC}._stop_commit_offsets_refresh_task")):
+        ctx.fn(starter)
+        if starter in clo:
+            skip = _skip_edges(c, fi, ("self._coordination_task",))
+            for sc in _calls_resolving_to(ctx, fi, stopper):
+                # is the stop call reachable from the entry without passing the await (ignoring the already-done edge)?
+                seen, stack = set(), [c.entry]
+                hit = False
+                while stack:
+                    n = stack.pop()
+                    if n in seen or n in aw:
+                        continue
+                    seen.add(n)
+                    if n is sc:
+                        hit = True
+                        break
+                    stack += [m for m, l in n.succ if l != "exc" and (n, l) not in skip]
+                ctx.ob(R, fi, sc, not hit, f"{stopper.rsplit('.', 1)[-1]}() can run while the coordination routine is still running: a rebalance in flight "
+                                           f"completes afterwards and {starter.rsplit('.', 1)[-1]}() starts a task that nothing stops (it outlives stop())",
+                       text=f"stop-after-coordination:{stopper.rsplit('.', 1)[-1]}")
     lv = _calls_resolving_to(ctx, fi, f"{GC}._maybe_leave_group")
     stops = _calls_resolving_to(ctx, fi, f"{GC}._stop_heartbeat_task") + aw
     ok = bool(lv) and all(not c.path_exists(l, s, exc=False) for l in lv for s in stops)
@@ -852,9 +874,28 @@ def rule_leave(ctx):
     snd = [n for n in c.nodes if n.kind == "await" and isinstance(n.ast, ast.Await) and isinstance(n.ast.value, ast.Call) and call_attr(n.ast.value) == "_send_req"]
     ok = len(snd) == 1 and c.dominates(lg[0], snd[0]) and unparse(arg_of(snd[0].ast.value, 0)) in {unparse(s.ast) for s in c.stores() if s.stmt is lg[0].stmt}
     ctx.ob(R, fi, fi.node, ok, "the LeaveGroup request built is not the one sent", text="sent")
+    ok_reset, why = leave_effects(ctx, fi)
+    ctx.ob(R, fi, fi.node, ok_reset, why, text="reset")
+
+
+def leave_effects(ctx, fi):
+    """On every normal path of _maybe_leave_group the member forgets its identity (generation, member id) and a rejoin is
+    requested -- through reset_generation() or inline."""
+    c = ctx.cfg(fi)
     rg = c.calls(attr="reset_generation")
-    w = paths_avoiding(c, rg, set())
-    ctx.ob(R, fi, fi.node, bool(rg) and w is None, "generation is not reset after leaving (heartbeats / commits would continue with the old identity)", text="reset")
+    if rg and paths_avoiding(c, rg, set()) is None:
+        return True, ""
+    gen = [n for n in c.nodes if n.kind == "store" and unparse(n.ast) == "self.generation" and "DEFAULT_GENERATION_ID" in unparse(n.stmt.value)]
+    mid = [n for n in c.nodes if n.kind == "store" and unparse(n.ast) == "self.member_id" and "UNKNOWN_MEMBER_ID" in unparse(n.stmt.value)]
+    rj = c.calls(attr="request_rejoin")
+    miss = []
+    if not (gen and paths_avoiding(c, gen, set()) is None):
+        miss.append("the generation is not reset")
+    if not (mid and paths_avoiding(c, mid, set()) is None):
+        miss.append("the member id is not reset")
+    if not (rj and paths_avoiding(c, rj, set()) is None):
+        miss.append("no rejoin is requested (a member that left because it was idle never comes back: need_rejoin() stays false)")
+    return (not miss), "after LeaveGroup " + "; ".join(miss)
 
 
 def run(ctx):
